@@ -52,6 +52,12 @@ type c20Obs struct {
 	Goroutines int               `json:"goroutines"`
 	Err        string            `json:"err,omitempty"`
 	Panic      string            `json:"panic,omitempty"`
+	// EnvSuspect: an auto-refresh cache was set up without any descriptor shortage
+	// injected by the script, yet reports that it could not create its watcher:
+	// the machine had no inotify instance left for this user at that moment.
+	EnvSuspect bool `json:"env_suspect,omitempty"`
+	// EnvConfirmed: a probe made at once (inotify_init1) failed as well
+	EnvConfirmed bool `json:"env_confirmed,omitempty"`
 }
 
 func c20Resources() (fds, inotifyFds int, watched []uint64, goroutines int) {
@@ -234,9 +240,22 @@ func childC20(args []string) int {
 		limit  syscall.Rlimit
 		fds    []int
 	}
+	autoNow := true // the library's default
 	for i, st := range script.Steps {
 		obs := c20Obs{Step: i, Op: st.Op}
 		pv, stack := guard(func() {
+			defer func() {
+				switch st.Op {
+				case "new", "configure":
+					if st.Auto != nil {
+						autoNow = *st.Auto
+					}
+					if !em.active && autoNow && cache != nil && watcherMissing(cache) {
+						obs.EnvSuspect = true
+						obs.EnvConfirmed = !inotifyAvailable()
+					}
+				}
+			}()
 			switch st.Op {
 			case "warmup":
 				// make the Go runtime open what it opens lazily (poller), before the baseline
@@ -360,6 +379,10 @@ func childC20(args []string) int {
 				obs.Fds, obs.InotifyFds, obs.WatchedIno, obs.Goroutines = c20Resources()
 			case "fresh":
 				f, _ := cdi.NewCache(options(st)...)
+				if !em.active && (st.Auto == nil || *st.Auto) && watcherMissing(f) {
+					obs.EnvSuspect = true
+					obs.EnvConfirmed = !inotifyAvailable()
+				}
 				state(f, &obs)
 				f.Configure(cdi.WithAutoRefresh(false))
 			}
@@ -367,7 +390,7 @@ func childC20(args []string) int {
 		if pv != nil {
 			obs.Panic = fmt.Sprintf("%v\n%s", pv, stack)
 		}
-		if st.Op == "observe" || st.Op == "baseline" || st.Op == "fresh" || obs.Err != "" || obs.Panic != "" {
+		if st.Op == "observe" || st.Op == "baseline" || st.Op == "fresh" || obs.Err != "" || obs.Panic != "" || obs.EnvSuspect {
 			out.Encode(obs)
 		}
 	}
@@ -389,7 +412,30 @@ func checkC20(c *Ctx) {
 	nh := c.pick(90, 3000)
 	ne := c.pick(36, 600)
 	var fixed func(root, anchor string, pool []string) (steps []c20Step, dirs []string, auto bool)
+	var runOnce func(cs *Case, exhaustAt int, exhaustToEnd bool, exhaustMode string, evaluateAnyway bool) int
+	// run repeats a history whose child process met a shortage of inotify instances
+	// that the script did not inject (other processes of this user hold them): the
+	// case generator is a pure function of the case name, so the repetition is identical.
 	run := func(cs *Case, exhaustAt int, exhaustToEnd bool, exhaustMode string) {
+		unconfirmed := 0
+		for attempt := 0; attempt < 8; attempt++ {
+			// 0: evaluated; 1: void, the machine had no inotify instance (confirmed by a
+			// probe in the child); 2: a watcher was missing although the probe succeeded
+			switch runOnce(c.newCase(cs.Name), exhaustAt, exhaustToEnd, exhaustMode, unconfirmed >= 2) {
+			case 0:
+				return
+			case 2:
+				unconfirmed++
+			}
+			envShortages.Add(1)
+			c.Count("histories_repeated_for_machine_inotify_shortage", 1)
+			waitInotify(15 * time.Second)
+			time.Sleep(time.Duration(attempt*300) * time.Millisecond)
+		}
+		c.Inconclusive("no-inotify-instance")
+	}
+	runOnce = func(cs *Case, exhaustAt int, exhaustToEnd bool, exhaustMode string, evaluateAnyway bool) (void int) {
+		envSuspect, envConfirmed := false, false
 		r := cs.R
 		root := filepath.Join(c.Scratch, sanitize(cs.Name))
 		must(os.MkdirAll(root, 0o755))
@@ -649,7 +695,21 @@ func checkC20(c *Ctx) {
 				c.Inconclusive("quiesce-timeout")
 				return
 			}
+			if o.EnvSuspect {
+				envSuspect = true
+			}
+			if o.EnvConfirmed {
+				envConfirmed = true
+			}
 			obs[o.Step] = o
+		}
+		if envConfirmed {
+			return 1
+		}
+		if envSuspect && !evaluateAnyway {
+			// identical repetitions that keep lacking a watcher while the machine has
+			// instances to give are evaluated like any other observations
+			return 2
 		}
 		wit := func() map[string]any {
 			return map[string]any{"default_cache": useDefault, "script": steps, "final_dirs": curDirs, "final_auto": curAuto, "observations": obs, "exhaustion": fmt.Sprintf("at=%d toEnd=%v mode=%s", exhaustAt, exhaustToEnd, exhaustMode)}
@@ -785,6 +845,7 @@ func checkC20(c *Ctx) {
 			}
 		}
 		c.Sample(3, map[string]any{"default_cache": useDefault, "option_changes": strings.Join(sig, ""), "configure_calls": nconf, "exhaustion": ex, "final_auto": curAuto, "final_fds_minus_baseline": fin.Fds - base.Fds, "final_watcher_goroutines": fin.Goroutines})
+		return 0
 	}
 	// catalogue: the old watcher goroutine, held at an event across a Configure,
 	// continues afterwards with the directory-error map of the old configuration
